@@ -74,6 +74,7 @@ func Features(s *ast.Schema, doc *ast.QueryDocument, op *ast.OperationDefinition
 		}
 		names := map[string][]string{} // field name -> response keys
 		keys := map[string]string{}    // response key -> field name
+		keyDirs := map[string]string{} // response key -> directives of its first selection
 		// response keys of composite fields that are (also) selected inside a fragment of this selection set
 		{
 			direct := map[string]bool{}
@@ -136,6 +137,12 @@ func Features(s *ast.Schema, doc *ast.QueryDocument, op *ast.OperationDefinition
 				if _, twice := keys[key]; twice {
 					// two sibling selections answer under one response key: their sub-selections merge
 					fs["same-response-key-twice"] = true
+					if d0, d1 := keyDirs[key], dirText(x.Directives); d0 != "" && d1 != "" && d0 != d1 {
+						// ... and each of them stands under a condition of its own
+						fs["same-key-two-conditions"] = true
+					}
+				} else {
+					keyDirs[key] = dirText(x.Directives)
 				}
 				names[x.Name] = append(names[x.Name], key)
 				keys[key] = x.Name
@@ -542,4 +549,15 @@ func helperLeaves(v interface{}) map[string]bool {
 		return nil
 	}
 	return out
+}
+
+func dirText(ds ast.DirectiveList) string {
+	var b strings.Builder
+	for _, d := range ds {
+		b.WriteString("@" + d.Name)
+		for _, a := range d.Arguments {
+			b.WriteString("(" + a.Name + ":" + a.Value.String() + ")")
+		}
+	}
+	return b.String()
 }
